@@ -743,3 +743,9 @@ def op_misc():
 
 def trough_indices(specs):
     return [i for i, s in enumerate(specs) if s["kind"] == "trough"]
+
+
+def ops_list(op, lo, hi):
+    """A program of lo..hi operations with an explicitly drawn length (Hypothesis' own list lengths are bimodal:
+    about 40 % singletons, which is poor for history properties)."""
+    return st.integers(lo, hi).flatmap(lambda n: st.lists(op, min_size=n, max_size=n))
